@@ -26,7 +26,7 @@ RULE = (
 )
 ASSUMPTIONS = [
     "one size per label (no stretching of a size-1 dim against a longer one)",
-    "non-negative axis numbers for tensordot (documented: 'the axes to contract')",
+    "tensordot axes given as an int or as a pair of sequences (the documented forms); negative axis numbers included",
 ]
 
 SYMS = "abcde"
@@ -80,6 +80,12 @@ def td_cases(draw):
         sb = [draw(st.sampled_from([1, 2, 3])) for _ in range(rb)]
         for i, j in zip(ax_a, ax_b):
             sb[j] = sa[i]
+        # any axis may be written negatively (counting from the end), as
+        # numpy.tensordot accepts
+        neg_a = draw(st.lists(st.booleans(), min_size=len(ax_a), max_size=len(ax_a)))
+        neg_b = draw(st.lists(st.booleans(), min_size=len(ax_b), max_size=len(ax_b)))
+        ax_a = [i - ra if ng else i for i, ng in zip(ax_a, neg_a)]
+        ax_b = [j - rb if ng else j for j, ng in zip(ax_b, neg_b)]
         axes = [ax_a, ax_b]
     return {
         "kind": "tensordot",
@@ -195,6 +201,8 @@ def run_tensordot(spec):
         elif not np.array_equal(got, exp):
             viol.append(f"tensordot(shapes {sa},{sb}, axes={axes}): wrong values")
     cls = ["tensordot", "axes_int" if isinstance(axes, int) else "axes_lists"]
+    if not isinstance(axes, int) and any(x < 0 for x in list(axes[0]) + list(axes[1])):
+        cls.append("negative_axes")
     if 1 in sa or 1 in sb:
         cls.append("size1")
     return Outcome(viol, "size1" in cls or isinstance(axes, int), cls)
